@@ -39,6 +39,10 @@ CLAIMED = {
             "accepts, close, denial response, crash) and closing orders, judged against a decision table with an independently "
             "computed RFC 6455 accept token.",
             "requests that are not upgrade attempts at all (no Connection: upgrade token, other Upgrade value, non-GET) are ordinary HTTP and not judged here"),
+    "C05": ("5/C05", "Complete enumeration of base program x await point x failure kind {raise, ExceptionGroup, return, self-cancel} x "
+            "context {HTTP/1.1 keep-alive, pipelined, HTTP/2 with siblings, WebSocket on both carriers} x worker, plus seeded variation "
+            "of segmentation/latency/body around the same product; the client-side parsers decide 500 / visibly incomplete / reset.",
+            "HTTP/1.0 and close-delimited responses cannot signal truncation and are not generated; a response whose declared length was fully sent before the failure may parse as complete"),
 }
 
 NOT_APPLICABLE = {
